@@ -65,6 +65,10 @@ func mavenCore(s string) bool {
 }
 
 var findingClasses = []findingClass{
+	// composer: a stability flag (@dev, @RC, ...) selects by stability, not by position in the order
+	{"F-composer-stability-flag", "C20", "composer", func(kind string, rng string, vs []string) bool {
+		return kind == "not-convex" && strings.Contains(rng, "@")
+	}},
 	// composer: the literal text "1.0b1" is special-cased in matchesCaret, so padding it matters
 	{"F-composer-caret-text-case", "C18", "composer", func(kind string, rng string, vs []string) bool {
 		if kind != "version-padding-contains" || !strings.Contains(rng, "^") {
